@@ -7,9 +7,9 @@
    registrations created (EvAdd kind uid), callbacks entered (EvInv kind uid) and registrations removed by a
    successful delete call or by the callback's own request (EvDel kind uid); kind 0 job, 1 timer, 2 descriptor, 3 signal.
    All theorems quantify over every history, every behaviour table and every positive random stream. *)
-Require Import ZArith List Bool Lia.
+Require Import ZArith List Bool Lia Sorted.
 Require Import Verif.gen.Consts_loop Verif.LoopModel Verif.LoopProofs_C08a Verif.LoopProofs_C08b Verif.LoopProofs_C08c
-               Verif.LoopProofs_C08d Verif.LoopProofs_C08e.
+               Verif.LoopProofs_C08d Verif.LoopProofs_C08e Verif.LoopProofs_C08f.
 Import ListNotations.
 Open Scope Z_scope.
 
@@ -36,6 +36,19 @@ Proof. exact deleted_not_live. Qed.
 Theorem C08_job_timer_at_most_once : forall f beh h rnd post pre k u, fx_sigdel f = true -> good_rand rnd -> (k = 0 \/ k = 1) ->
   out (run_history_fx f beh h rnd) = post ++ EvInv k u :: pre -> ~ In (EvInv k u) post /\ ~ In (EvInv k u) pre.
 Proof. exact job_timer_at_most_once. Qed.
+
+(* FIFO per priority (state form): in every reachable state the jobs of one priority sit on job_head ++ wait_head in the
+   order of their qb_loop_job_add calls (uids are handed out in call order), and qb_loop_run_level always dispatches the
+   first item of job_head - so jobs of one priority run in the order they were added *)
+Theorem C08_fifo_queue_order : forall f beh h rnd p, fx_sigdel f = true -> good_rand rnd ->
+  StronglySorted Z.lt (jseq (run_history_fx f beh h rnd) p).
+Proof. exact fifo_all_histories. Qed.
+Theorem C08_run_level_takes_head : forall beh p fuel processed st it rest, jobq (lv st p) = it :: rest ->
+  run_level_go beh p (S fuel) processed st =
+    (let st1 := dec_todo p (dispatch beh it (upd_level p (fun l => {| wait := wait l; jobq := rest; todo := todo l |}) st)) in
+     if stop st1 then (st1, processed + 1)
+     else if processed + 1 <? LOOP_TO_PROCESS then run_level_go beh p fuel (processed + 1) st1 else (st1, processed + 1)).
+Proof. exact run_level_takes_head. Qed.
 
 (* what a delete call that returns 0 removed *)
 Theorem C08_job_del_logs : forall p key st, fst (job_del p key st) = 0 ->
@@ -90,6 +103,8 @@ Print Assumptions C08_wf.
 Print Assumptions C08_del_never_again.
 Print Assumptions C08_deleted_not_registered.
 Print Assumptions C08_job_timer_at_most_once.
+Print Assumptions C08_fifo_queue_order.
+Print Assumptions C08_run_level_takes_head.
 Print Assumptions C08_job_del_logs.
 Print Assumptions C08_timer_del_logs.
 Print Assumptions C08_signal_del_logs.
